@@ -649,6 +649,11 @@ def gen_C14(tier, seed):
                     lines.append(f"{rv} {op} {bc} {br} {fl(big)} 1 1 {1 + c} {1 + r}")
                     lines.append(f"{rv} {op} {bc} {br} {fl(big)} 0 0 {c} {r}")
                     lines.append(f"{rv} {op} {bc} {br} {fl(big)} 0 0 {c + 1} {r}")
+                    # source views with the receiver's own row gap (C - c for a window of this root; 0 otherwise), at either edge
+                    if c and r:
+                        same = uniq(C * r, 950)
+                        lines.append(f"{rv} {op} {C} {r} {fl(same)} 0 0 {c} {r}")
+                        lines.append(f"{rv} {op} {C} {r} {fl(same)} {C - c} 0 {C} {r}")
                 b.case(elem, lines)
             # copy_within: all source rectangles x all destination corners (valid + one-off invalid + huge)
             rects = [(c0, r0, c1, r1) for c0 in range(c + 2) for c1 in range(c + 2) for r0 in range(r + 2) for r1 in range(r + 2)]
@@ -813,6 +818,10 @@ def gen_C04(tier, seed):
                        f"swap_cols 0 {max(cc - 1, 0)}", f"row_pair 0 {max(rr - 1, 0)}",
                        f"copy_from_slice {fl(uniq(n, 5000))}", f"clone_from_slice {fl(uniq(n, 6000))}",
                        f"copy_from_toodee {cc} {rr} {fl(uniq(n, 7000))}",
+                       # a source *view* whose rows lie as far apart as the receiver's (same stride, same gap): the two backing
+                       # slices line up cell for cell, gaps included
+                       f"copy_from_toodee {C} {max(rr, 1)} {fl(uniq(C * max(rr, 1), 7100))} 0 0 {cc} {rr}",
+                       f"clone_from_toodee {C} {max(rr, 1)} {fl(uniq(C * max(rr, 1), 7200))} {C - cc} 0 {C} {rr}",
                        f"copy_within 0 0 {max(cc - 1, 0)} {max(rr - 1, 0)} {1 if cc > 1 else 0} {1 if rr > 1 else 0}",
                        # the other three directions of an overlapping copy, and the row pair asked for in descending order
                        f"copy_within {1 if cc > 1 else 0} {1 if rr > 1 else 0} {cc} {rr} 0 0",
